@@ -502,6 +502,17 @@ func scenConsume(s *Sim) {
 				// after the client let go of the old one, so the harness
 				// waits for that before it creates it again.
 				defer close(recreateDone[ev.S])
+				// the deletion itself may still be on its way (environment
+				// events are requests too and can be slow)
+				if !s.WaitFor(60*time.Second, 100*time.Millisecond, func() bool {
+					tmu.Lock()
+					defer tmu.Unlock()
+					ts := tstate[ev.S]
+					return ts != nil && ts.deleted
+				}) {
+					s.Logf("ENV topic %s not recreated: it was never deleted", ev.S)
+					return
+				}
 				// a metadata response from before the deletion can still be
 				// on its way to the client (at most one request time-out)
 				time.Sleep(time.Duration(p.Knob("req_overhead_ms", 2000)+1000) * time.Millisecond)
